@@ -7,8 +7,10 @@
 //! first choices) and hands them to single-threaded worker processes over pipes (io_uring set-up
 //! and tear-down in many threads of ONE process serialise on the shared address space; separate
 //! processes scale).  Every worker answers one JSON line per unit.
+mod accept;
 mod bufs;
 mod dgram;
+mod duplex;
 mod peer;
 mod rt;
 mod sops;
@@ -22,7 +24,7 @@ use std::{
         Mutex,
         atomic::{AtomicUsize, Ordering},
     },
-    time::{Duration, Instant, SystemTime, UNIX_EPOCH},
+    time::{Instant, SystemTime, UNIX_EPOCH},
 };
 
 use compio_driver::DriverType;
@@ -245,10 +247,8 @@ pub fn stream_alphabet(layer: &str, big: usize) -> Vec<Step> {
             send(Write, 3, 0),
             send(WriteV, 3, 3),
             send(Zc, 3, 0),
-            send(ZcV, 3, 2),
             send(Anc, 3, 0),
             send(Write, big, 0),
-            send(WriteV, big, 2),
             Step::PeerRecvAll,
             Step::Shutdown,
             Step::Split(false),
@@ -354,6 +354,9 @@ fn make_units(tier: Tier) -> Vec<Unit> {
     for (layer, depth) in stream_layers(tier) {
         for &drv in &DRIVERS {
             for tr in [Transport::Tcp, Transport::Unix] {
+                // quick: the deep layers run one step shallower on TCP (same compio code path as
+                // Unix, several times the cost per execution, and no back-pressure across steps)
+                let depth = if tier == Tier::Quick && tr == Transport::Tcp && layer.ends_with("-deep") { depth - 1 } else { depth };
                 let alpha = stream_alphabet(layer, 1 << 20);
                 let n_init = alpha.iter().filter(|s| !matches!(s, Step::PeerRecvAll)).count();
                 for c0 in 0..n_init as u32 {
@@ -368,6 +371,29 @@ fn make_units(tier: Tier) -> Vec<Unit> {
         for &drv in &DRIVERS {
             for c0 in 0..dgram::alphabet(layer).len() as u32 {
                 units.push(Unit { family: "dgram-A", layer: layer.to_string(), drv, tr: Transport::Udp, depth, prefix: vec![c0] });
+            }
+        }
+    }
+    for &drv in &DRIVERS {
+        for tr in [Transport::Tcp, Transport::Unix] {
+            for c0 in 0..accept::ALPHABET.len() as u32 {
+                units.push(Unit { family: "accept", layer: "all".into(), drv, tr, depth: tier.pick(5, 8), prefix: vec![c0] });
+            }
+        }
+    }
+    let nprog = duplex::writer_programs(0).len() * duplex::READERS.len();
+    for &drv in &DRIVERS {
+        for tr in [Transport::Tcp, Transport::Unix] {
+            for prog in 0..nprog {
+                // the big writer is paired with three of the readers, and runs on Unix only
+                // (a TCP sender with a minimised send buffer waits for delayed ACKs, i.e. real time)
+                let (wi, ri) = (prog / duplex::READERS.len(), prog % duplex::READERS.len());
+                if wi == 2 && (tr == Transport::Tcp || !matches!(duplex::READERS[ri], "read" | "readv" | "mixed")) {
+                    continue;
+                }
+                for c0 in 0..3u32 {
+                    units.push(Unit { family: "duplex-B", layer: format!("p{prog}"), drv, tr, depth: tier.pick(5, 8), prefix: vec![c0] });
+                }
             }
         }
     }
@@ -386,6 +412,11 @@ fn exec_one(par: &Params, unit: &Unit, ch: &mut Pk, cache: &mut rt::RtCache) -> 
     };
     let (rt, reused) = cache.get(unit.drv, pool);
     let out = match unit.family {
+        "accept" => accept::run_one(rt, ch, unit.drv, unit.tr, unit.depth),
+        "duplex-B" => {
+            let prog: usize = unit.layer.trim_start_matches('p').parse().unwrap_or(0);
+            duplex::run_one(rt, ch, unit.drv, unit.tr, prog, unit.depth, par.big(Transport::Unix))
+        }
         "dgram-A" => {
             let alphabet = dgram::alphabet(&unit.layer);
             dgram::run_one(rt, ch, unit.drv, unit.layer == "connected", &alphabet, unit.depth)
@@ -606,6 +637,8 @@ fn parse_unit(r: &Value) -> Unit {
     let family = match r["family"].as_str().unwrap_or("") {
         "stream-A" => "stream-A",
         "dgram-A" => "dgram-A",
+        "accept" => "accept",
+        "duplex-B" => "duplex-B",
         other => vcore::machinery_error(&format!("unknown family {other:?} in the replay file")),
     };
     Unit {
@@ -691,12 +724,19 @@ fn main() {
         "drivers": ["io_uring", "polling"],
         "stream-A": {
             "transports": ["tcp-loopback", "unix-stream"],
+            "note": "quick: the two -deep layers run with depth - 1 on TCP",
             "layers": layers.iter().map(|(l, d)| json!({"layer": l, "depth": d, "alphabet": stream_alphabet(l, 99999).iter().map(|s| s.name()).collect::<Vec<_>>() })).collect::<Vec<_>>(),
         },
         "dgram-A": {
             "transport": "udp-loopback, two raw peers", "datagram_sizes": dgram::SIZES,
             "layers": dgram_layers(tier).iter().map(|(l, d)| json!({"layer": l, "depth": d, "alphabet": dgram::alphabet(l).iter().map(|s| s.name()).collect::<Vec<_>>() })).collect::<Vec<_>>(),
             "managed_pool": {"buffers": dgram::DPOOL_BUFS, "buffer_len": dgram::DPOOL_LEN},
+        },
+        "accept": {"transports": ["tcp-loopback", "unix-stream"], "alphabet": ["PeerConnect", "Accept", "IncomingNext", "Harvest"], "depth": tier.pick(5, 8), "max_connections": 4},
+        "duplex-B": {
+            "transports": ["tcp-loopback", "unix-stream"], "schedule_alphabet": ["PollWriter", "PollReader", "Harvest"], "schedule_depth": tier.pick(5, 8),
+            "writers": duplex::writer_programs(par.big_unix).iter().map(|(n, p, s)| json!({"name": n, "ops": format!("{p:?}"), "through_into_split_write_half": s})).collect::<Vec<_>>(),
+            "readers": duplex::READERS,
         },
         "big_send": {"tcp": par.big_tcp, "unix": par.big_unix, "accepted_by_one_send_with_minimised_SO_SNDBUF": {"tcp": acc_tcp, "unix": acc_unix}},
         "managed_pool": {"buffers": rt::POOL_BUFS, "buffer_len": rt::POOL_BUF_LEN},
